@@ -344,6 +344,11 @@ pub fn gen_selection(rng: &mut Rng, view: &Value, keep_pm: u64) -> Map<String, V
         if !rng.chance(keep_pm, 1000) {
             return if rng.chance(1, 8) { Value::Null } else { json!(false) };
         }
+        // selector scalars other than `true` (wildcard-looking strings, numbers): callers write
+        // them; whatever they mean, they must mean the same on every path
+        if rng.chance(1, 25) {
+            return rng.pick(&[json!("*"), json!("all"), json!("true"), json!(1), json!("**"), json!("$..*")]).clone();
+        }
         match v {
             Value::Object(o) if !o.is_empty() && rng.chance(3, 4) => {
                 let mut m = Map::new();
@@ -412,7 +417,7 @@ pub fn narrow_selection(rng: &mut Rng, s: &Map<String, Value>, drop_pm: u64) -> 
             Value::String(_) | Value::Number(_) if in_array => v.clone(),
             _ if rng.chance(drop_pm, 1000) => {
                 if in_array && rng.chance(1, 3) {
-                    rng.pick(&[json!("FR"), json!(7), json!(""), json!(0.5)]).clone()
+                    rng.pick(&[json!("FR"), json!(7), json!(""), json!(0.5), json!("*"), json!("all"), json!("$..*")]).clone()
                 } else {
                     json!(false)
                 }
@@ -435,6 +440,11 @@ pub fn narrow_selection(rng: &mut Rng, s: &Map<String, Value>, drop_pm: u64) -> 
 }
 
 pub fn gen_session_string(rng: &mut Rng) -> String {
+    // rarely kilobytes long (a nonce that carries state, an audience URL with a long query)
+    if rng.chance(1, 25) {
+        let n = *rng.pick(&[1500usize, 3000, 6000, 20_000]);
+        return format!("https://verifier.example/cb?state={}", "s9".repeat(n / 2));
+    }
     match rng.usize(10) {
         8 => rng.pick(&["x509_san_dns:verifier.example.com", "redirect_uri:https://verifier.example/cb", "did:web:verifier.example", "openid_federation:https://rp.example", "verifier_attestation:rp-7", "x509_hash:Uvo3HtuIxuhC92rShpgqcT3YXwrqRxWEviRiA0OZszk", "decentralized_identifier:did:example:123"]).to_string(),
         9 => rng.pick(&["https://Verifier.Example.org/", "https://verifier.example.org/cb?x=1#f", "HTTPS://VERIFIER.EXAMPLE.ORG", "verifier.example.org"]).to_string(),
